@@ -22,6 +22,9 @@ from . import sym
 class Top(Exception):
     pass
 
+class Overlap(Top):
+    """two different unknown bits are combined into one position: the packing is not invertible"""
+
 class NeedBranch(Exception):
     def __init__(self, cond):
         self.cond = cond
@@ -61,7 +64,7 @@ def bor(a, b):
         elif y == 0: out.append(x)
         elif x == 1 or y == 1: out.append(1)
         elif x == y: out.append(x)
-        else: raise Top(f"or of two unrelated unknown bits {x} | {y} at bit {i} (fields overlap)")
+        else: raise Overlap(f"or of two unrelated unknown bits {x} | {y} at bit {i} (fields overlap)")
     return trim(out)
 
 def bxor(a, b):
@@ -110,7 +113,7 @@ def bits(t, widths, assume=None, env=None):
             a = bits(t[2], widths, assume, env); b = bits(t[3], widths, assume, env)
             for i in range(min(len(a), len(b))):
                 if a[i] != 0 and b[i] != 0:
-                    raise Top('addition of overlapping bit ranges')
+                    raise Overlap('addition of overlapping bit ranges')
             return bor(a, b)
         if op == '%' and sym.is_const(t[3]) and isinstance(t[3][1], int) and t[3][1] > 0 and (t[3][1] & (t[3][1] - 1)) == 0:
             a = bits(t[2], widths, assume, env)
